@@ -25,6 +25,7 @@ def main_texts(pool: dict[str, Any], rng: random.Random) -> list[str]:
 	for m in pool['modules']:
 		t = pools.tag_of(m)
 		texts.append(f'from {m} import make_{t}\ndef main_{t}(k: int) -> int:\n\tv = make_{t}()\n\tw = v.value\n\tu = w\n\txs = [u]\n\treturn k if k > 0 else len(xs)')
+	texts.append('from __main__ import A\nclass A:\n\tn: int\n\tdef __init__(self) -> None:\n\t\tself.n = 0\ndef use_a(k: int) -> int:\n\ta = A()\n\treturn a.n + k')
 	texts.append("def lone(k: int) -> int:\n\ts = 'x'\n\tn = len(s)\n\treturn k + n")
 	texts.append('def lone2(k: int) -> float:\n\tf = 1.5\n\treturn f')
 	texts.append('def bad(k: int) -> int:\n\treturn undefined_name + k')
